@@ -5,4 +5,8 @@ CHECKS = {
    technique="exhaustive enumeration of the operator matrix (every basis vector, every size/order/boundary/axis) against exact rational Fornberg weights",
    text="Complete decision for every enumerated grid size: the full matrix of each derivative operator (all basis vectors of the grid) is compared entry by entry with exact rational weights, so by linearity the result holds for every real input field; sizes 1..2p+8, 33 (thorough: 64, 101), all orders, boundaries, axes, tensor ranks 0-3.",
    note="Assumes linearity of the operators (superposition is also asserted on all pairs along the axis); trusted base: refs/fdweights.py (Vandermonde solve over Fractions, self-tested against published weights); sizes beyond those enumerated rely on translation invariance of interior rows."),
+ "C16": dict(engine="E2-product", level="exploration", design_ref="5 C16",
+   technique="exhaustive enumeration of the (axis, N, min, spacing, fd_order) lattice against closed-form expectations",
+   text="Every grid of the lattice N in 1..40,64,100,128 x 7 minima x 8 spacings (incl. 0.1, 0.3, 1/3) x axis is constructed and every attribute compared with its closed form; consumers mixing fd.N* and param['N*'] are executed on the small grids; trimming helpers on 1/2/3-D arrays for every order.",
+   note="Bounded to the lattice; coordinates compared up to 1e-12*max|coord| + 1e-9*spacing; excision helpers only checked for not touching their argument and keeping non-excised values."),
 }
